@@ -291,6 +291,11 @@ impl<R: DynamicChannelRegion> RegionHandler for DynamicChannelPlan<R> {
             && let Some(mut channel) = self.channels[index as usize]
             && channel.frequency != 0
         {
+            // The command is only executed when both status bits are set: a
+            // frequency the device cannot use must not be stored.
+            if !freq_valid {
+                return (false, true);
+            }
             channel.dl_frequency = if freq == channel.frequency {
                 // Reset downlink frequency
                 None
